@@ -161,7 +161,7 @@ PLAIN_CT = ["application/json", "text/plain; charset=utf-8", "application/octet-
 def gen_stream(rng, idx, body_sizes=None, force=None):
     """One abstract stream: request and response header fields, bodies, trailers, gRPC or not."""
     kind = force or rng.choice(["plain", "plain", "grpc", "grpc", "grpc-trailers-only", "grpc-req-only", "grpc-status-only"])
-    method = rng.choice(["GET", "POST", "POST", "PUT", "DELETE", "PATCH", "OPTIONS"])
+    method = rng.choice(["GET", "POST", "POST", "PUT", "DELETE", "PATCH", "OPTIONS", "get", "Post"])
     path = "/" + "/".join(rand_token(rng) + (rng.choice(["%20", "%2F", "%2f", "%41", "%C3%A9", "+", "%25"]) + rand_token(rng, 0, 3) if rng.random() < 0.15 else "")
                           for _ in range(rng.randint(0, 3)))
     if rng.random() < 0.3:
@@ -333,8 +333,11 @@ def build_h2_case(rng, streams, mode="prior", others=True, rst=None, order=None,
     # SETTINGS_HEADER_TABLE_SIZE bounds the PEER's encoder: a half may announce a small table and still send
     # size updates up to what the other half announced (or the default 4096)
     for ops in (cops, sops):
-        if rng.random() < 0.4:
+        r = rng.random()
+        if r < 0.4:
             ops[0]["hts"] = rng.choice([0, 256, 1024, 2048, 4096, 65536])
+        elif r < 0.6:
+            ops[0] = {"t": "settings", "empty": True}       # a peer that keeps every default: the preface is an empty SETTINGS frame
     case = {"kind": "h2", "h2": {"mode": mode, "client": cops, "server": sops}}
     if mode == "h2c":
         case["h2"]["upgrade"] = upgrade
@@ -491,7 +494,8 @@ def h2_residue_key(st, side):
 
 
 # ==================================================================================== HTTP/1.x
-METHODS = ["GET", "GET", "GET", "POST", "POST", "PUT", "DELETE", "PATCH", "OPTIONS", "PURGE", "M-SEARCH"]
+# method tokens are case-sensitive and copied verbatim: a few in lower and mixed case
+METHODS = ["GET", "GET", "GET", "POST", "POST", "PUT", "DELETE", "PATCH", "OPTIONS", "PURGE", "M-SEARCH", "get", "Patch", "m-search"]
 H1_SIZES = [0, 1, 2, 3, 10, 100, 1000, 4000, 4090, 4095, 4096, 4097, 4100, 5000, 8192, 8193, 20000]
 
 
@@ -596,11 +600,23 @@ def gen_exchange(rng, k, last=False, sizes=None):
 
     def chunks(n):
         return [rng.choice([1, 2, 15, 16, 17, 255, 256, 1000, 4096, 5000]) for _ in range(rng.randint(0, 6))]
-    return {"method": method, "target": target, "proto": proto, "reqHeaders": rh, "reqBody": b64(rb), "reqFraming": rf,
-            "reqChunks": chunks(len(rb)), "reqFramePos": rng.randint(0, len(rh)),
-            "status": status, "reason": rng.choice(["OK", "Whatever", "Not Found"]), "respProto": sp, "respHeaders": sh,
-            "respBody": b64(sb), "respFraming": sf, "respChunks": chunks(len(sb)), "respFramePos": rng.randint(0, len(sh)),
-            "chunkExt": rng.random() < 0.1, "chunkUpper": rng.random() < 0.3}
+    ex = {"method": method, "target": target, "proto": proto, "reqHeaders": rh, "reqBody": b64(rb), "reqFraming": rf,
+          "reqChunks": chunks(len(rb)), "reqFramePos": rng.randint(0, len(rh)),
+          "status": status, "reason": rng.choice(["OK", "Whatever", "Not Found"]), "respProto": sp, "respHeaders": sh,
+          "respBody": b64(sb), "respFraming": sf, "respChunks": chunks(len(sb)), "respFramePos": rng.randint(0, len(sh)),
+          "chunkExt": rng.random() < 0.1, "chunkUpper": rng.random() < 0.3}
+    if last and rng.random() < 0.15:
+        # the connection leaves HTTP with its last exchange: an upgrade that is not h2c, answered by 101 (a 1xx status that
+        # IS the final response of its exchange)
+        proto_name = rng.choice(["websocket", "TLS/1.3", "foo/2"])
+        ex.update({"method": "GET", "proto": "1.1", "respProto": "1.1", "reqBody": "", "reqFraming": "none", "reqChunks": [],
+                   "reqHeaders": [h for h in rh if h[0].lower() not in ("content-type", "connection", "upgrade")]
+                   + [["Connection", "Upgrade"], ["Upgrade", proto_name], ["Sec-WebSocket-Key", rand_token(rng, 8, 8)]],
+                   "status": 101, "reason": "Switching Protocols", "respBody": "", "respFraming": "none", "respChunks": [],
+                   "respHeaders": [h for h in sh if h[0].lower() not in ("content-type", "connection", "upgrade", "location")]
+                   + [["Connection", "Upgrade"], ["Upgrade", proto_name]]})
+        ex["reqFramePos"], ex["respFramePos"] = 0, 0
+    return ex
 
 
 def go_query_unescape(s):
@@ -1174,7 +1190,7 @@ def c08(ctx):
                     bounds.append(p)
             if len(bounds) < 3:
                 continue
-            for bad in rng.sample(REJECTED_FRAMES, 3 if quick else len(REJECTED_FRAMES)):
+            for bad in rng.sample(REJECTED_FRAMES, 3 if quick else 6):
                 at = rng.choice(bounds[:-1])
                 d = data[:at] + bad + data[at:]
                 streams.append((d, sb) if side == "c" else (cb, d))
@@ -1189,7 +1205,7 @@ def c08(ctx):
         ref[si] = add()
         for side, data in (("ccuts", cb), ("scuts", sb)):
             n = len(data)
-            pts = set(range(1, n)) if n <= (500 if quick else 10 ** 9) else set(rng.sample(range(1, n), 160))
+            pts = set(range(1, n)) if n <= (500 if quick else 1500) else set(rng.sample(range(1, n), 160 if quick else 600))
             pts |= {p for p in (1, 2, 8, 9, 23, 24, 25, 4095, 4096, 4097, 8191, 8192, 8193, n - 1) if 0 < p < n}
             for p in sorted(pts):
                 add(**{side: [p]})
